@@ -454,6 +454,12 @@ func init() {
 // the entry point: gqlparser.LoadSchema(sources…) after a history of other loads (some of which
 // extend types of the prelude) must equal validator.LoadSchema(prelude, sources…) in a fresh process.
 func (c *Ctx) loadHistoryCheck() {
+	redecl := []string{
+		"directive @deprecated(reason: String) on OBJECT | FIELD_DEFINITION\ntype Old @deprecated { a: Int }\ntype Query { o: Old }",
+		"directive @specifiedBy(url: String!, rfc: Int) on SCALAR\nscalar U @specifiedBy(url: \"u\", rfc: 1)\ntype Query { u: U }",
+		"directive @skip(if: Missing) on FIELD\ntype Query { a: Int }",
+		"directive @include(if: Boolean!) on FIELD | OBJECT\ntype Query @include(if: true) { a: Int }",
+	}
 	extenders := []string{
 		"directive @zztag(name: String) on SCALAR | OBJECT | ENUM | ENUM_VALUE | FIELD_DEFINITION\nextend scalar String @zztag(name: \"text\")\nextend scalar ID @zztag\ntype Query { a: Int }",
 		"extend type __Type { zzExtra: Int }\ntype Query { a: Int }",
@@ -467,7 +473,9 @@ func (c *Ctx) loadHistoryCheck() {
 		r := c.R.Fork(uint64(i) + 23_000_000)
 		var hist [][]string
 		for k := 1 + r.Intn(4); k > 0; k-- {
-			switch r.Intn(3) {
+			switch r.Intn(4) {
+			case 3:
+				hist = append(hist, []string{redecl[r.Intn(len(redecl))]})
 			case 0:
 				hist = append(hist, []string{extenders[r.Intn(len(extenders))]})
 			case 1:
